@@ -104,6 +104,11 @@ class Inliner:
             for i, t in enumerate(target.elts):
                 self._assign(t, ast.IfExp(val.test, val.body.elts[i], val.orelse.elts[i]), stmt)
             return
+        if isinstance(target, (ast.Tuple, ast.List)) and isinstance(val, (ast.ListComp, ast.GeneratorExp)) and len(val.generators) == 1:
+            # a, b, c = [f(x[k]) for k in ('a', 'b', 'c')]   ->   a, b, c = f(x['a']), f(x['b']), f(x['c'])
+            g = val.generators[0]
+            if not g.ifs and isinstance(g.target, ast.Name) and isinstance(g.iter, (ast.Tuple, ast.List)) and len(g.iter.elts) == len(target.elts):
+                val = ast.Tuple([subst(val.elt, {g.target.id: it}) for it in g.iter.elts], ast.Load())
         if isinstance(target, (ast.Tuple, ast.List)):
             if isinstance(val, (ast.Tuple, ast.List)) and len(val.elts) == len(target.elts) and \
                     not any(isinstance(x, ast.Starred) for x in list(val.elts) + list(target.elts)):
